@@ -222,7 +222,8 @@ class CompilerContext(ToHugrContext):
             case MonomorphizableDef(params=params) as defn:
                 # Entry point is not allowed to require monomorphization
                 if mono_params := require_monomorphization(params):
-                    mono_param = mono_params.pop()
+                    # Report the first one in declaration order (sets are unordered)
+                    mono_param = min(mono_params, key=lambda p: p.idx)
                     err = EntryMonomorphizeError(defn.defined_at, defn.name, mono_param)
                     raise GuppyError(err)
                 # Thus, the partial monomorphization for the entry point is always empty
